@@ -2,9 +2,10 @@
 (***************************************************************************)
 (* C14 - supervised data becomes a bandit problem whose best action is the *)
 (* true label (coba/environments/supervised.py SupervisedSimulation        *)
-(* 161-237, coba/pipes/rows.py LabelRows 516-531 / LabelDense 434-466 /    *)
-(* LabelSparse 467-515, coba/primitives.py BinaryReward / HammingReward /  *)
-(* L1Reward, coba/environments/core.py from_supervised 326-387).           *)
+(* __init__ 162-183 and read 189-237, coba/pipes/rows.py LabelRows 516-531 *)
+(* LabelDense 434-465 (feats = DropOne 312-329) LabelSparse 467-514 (feats *)
+(* = DropSparse 349-375), coba/primitives.py L1Reward 533 BinaryReward 563 *)
+(* HammingReward 603, coba/environments/core.py from_supervised 369-387).  *)
 (*                                                                         *)
 (* Part 1 (ORACLE) defines, for a sequence of examples <<x, y>> and a      *)
 (* label type, the interactions the environment must produce.              *)
@@ -40,19 +41,19 @@ Abs(a) == IF a >= 0 THEN a ELSE -a
 (***************************************************************************)
 (* Part 1.  ORACLE                                                         *)
 (***************************************************************************)
-(* label_type is case-insensitive (supervised.py 203)                      *)
+(* label_type is case-insensitive (supervised.py 204)                      *)
 Lower(lt) == CASE lt = "C" -> "c" [] lt = "R" -> "r" [] lt = "M" -> "m" [] OTHER -> lt
-(* a classification label given as a one-element list labels like its element (supervised.py 226-228) *)
+(* a classification label given as a one-element list labels like its element (supervised.py 226-228)   *)
 Single(y) == IF y.t = "lst" THEN y.v[1] ELSE y
 IsNum(y)  == y.t \in {"int", "half"}
 Twice(y)  == IF y.t = "int" THEN 2 * y.v ELSE y.v
 (* "label types c/r/m or inferred": without a label type numeric labels mean regression,   *)
-(* everything else classification (supervised.py 197-201); the data is never empty here    *)
+(* everything else classification (supervised.py 199-202); the data is never empty here    *)
 EffType(lt, data) == IF lt # "none" THEN Lower(lt) ELSE IF IsNum(data[1].y) THEN "r" ELSE "c"
 
 (* "every interaction offers the same action set - exactly the distinct labels of the data": *)
 (* a categorical label carries its declared levels, which ARE the label set of the data     *)
-(* (supervised.py 210-215); otherwise the labels that occur (216-229); multi-label: the     *)
+(* (supervised.py 211-216); otherwise the labels that occur (218-229); multi-label: the     *)
 (* distinct members of the label sets.  Regression offers no discrete action set.           *)
 LabelSet(T, data) ==
   CASE T = "c" -> IF data[1].y.t = "cat" THEN {Cat(Levels[k]) : k \in DOMAIN Levels}
@@ -265,7 +266,6 @@ SameActions == (go /\ Data # <<>>) =>
 ContextIsRowWithoutLabel == (go /\ Dense(case.src)) =>
   \A i \in 1..case.n : /\ InsertAt(X(case, i).v, case.pos, Y(case, i)) = Row(case, i).v
                        /\ Len(X(case, i).v) = case.nf
-(* the expected interactions are a function of the examples alone: how the source presents them (text, *)
-(* headers, label position, by index / by name) does not enter                                         *)
+(* the oracle is total: every interaction states a reward for every probe action of the label alphabet *)
 OracleTotal == go => \A k \in DOMAIN Out : \A a \in Probes(T, case.lk) : \E p \in Out[k].rw : p[1] = a
 =============================================================================
